@@ -251,9 +251,9 @@ Proof.
         enough (HS : forall w s, G w s = Some (order_of (fold_left score_step w s) (Z.of_nat (length ps)), ps,
                                                concat (map pred_phash ps))) by apply HS
     end.
-    induction w as [|b w IHw]; intros s; [reflexivity|]. cbn. apply IHw.
+    induction w as [|b w IHw]; intros s; [reflexivity|]. cbn [fold_left]. rewrite <- (IHw (score_step s b)). reflexivity.
   - inversion Hl as [|? ? Hni Hl']; subst.
-    cbn [make_loop]. cbn -[assoc kw_del make_vals make_loop pred_phash factory app concat].
+    cbn [make_loop]. lazy beta iota zeta; cbn [fst snd].
     destruct (assoc name kwc) as [vals|].
     2:{ rewrite (IH _ _ _ _ Hl'). rewrite make_loop_kw_del by assumption. reflexivity. }
     match goal with
@@ -274,9 +274,9 @@ Proof.
     { rewrite HV. destruct (make_vals name i vals (ps, ws)) as [[? ?]|]; reflexivity. }
     induction vs as [|[nt v] vs IHv]; intros ps0 ws0.
     + cbn [make_vals]. rewrite (IH _ _ _ _ Hl'). rewrite make_loop_kw_del by assumption. reflexivity.
-    + cbn [make_vals fst snd]. cbn -[assoc kw_del make_vals make_loop pred_phash factory app concat].
+    + cbn [make_vals fst snd]. lazy beta iota zeta; cbn [fst snd].
       unfold factory_of. destruct nt; destruct (factory name v) as [p|]; cbn [obind]; try reflexivity.
-      * cbn -[assoc kw_del make_vals make_loop pred_phash factory app concat]. rewrite <- concat_snoc. apply IHv.
-      * cbn -[assoc kw_del make_vals make_loop pred_phash factory app concat]. rewrite <- concat_snoc. apply IHv.
+      * lazy beta iota zeta; cbn [fst snd]. rewrite <- concat_snoc. apply IHv.
+      * lazy beta iota zeta; cbn [fst snd]. rewrite <- concat_snoc. apply IHv.
 Qed.
 
